@@ -99,134 +99,139 @@ type c01Gen struct {
 	num numLit
 }
 
+// c01Queries enumerates the C01 query x table space (also reused by C04).
+func c01Queries(depth, maxRows int) (queries []*Query, nDom, nS int) {
+	dom := c01Domain()
+	U := append(append([][]V{}, dom...), dom[13], dom[13], dom[47])
+	// sub-domain for table family S (multisets)
+	sub := [][]V{
+		{Int(1), Str("a"), Bool(true)},
+		{Int(1), Str("B"), Bool(false)},
+		{Int(2), Str("a"), Null},
+		{Null, Str("ab"), Bool(true)},
+		{Int(0), Null, Bool(false)},
+		{Int(2), Str("a"), Bool(true)},
+	}
+	var S [][][]V
+	enum.Multisets(len(sub), maxRows, func(ms []int) {
+		var t [][]V
+		for _, i := range ms {
+			t = append(t, sub[i])
+		}
+		S = append(S, t)
+	})
+	gens := []c01Gen{{mkCSV, intLit}, {mkJSON, floatLit}}
+	for _, g := range gens {
+		tu := g.mk("t", c01Cols, U)
+		preds := c01Predicates(g.num, depth)
+		projs := c01Projections(g.num)
+		// F1: every predicate x two projections over U (filter / map over every row of the domain)
+		for _, p := range preds {
+			for _, pj := range [][]Proj{projs[0], projs[3]} {
+				q := NewQuery()
+				q.From = &From{Table: tu}
+				q.Where = p
+				q.Proj = pj
+				queries = append(queries, q)
+			}
+		}
+		// every projection with and without a predicate
+		for _, pj := range projs {
+			for _, p := range []*Expr{nil, preds[1]} {
+				for _, d := range []bool{false, true} {
+					q := NewQuery()
+					q.From = &From{Table: tu}
+					q.Where = p
+					q.Proj = pj
+					q.Distinct = d
+					queries = append(queries, q)
+				}
+			}
+		}
+		// F2: DISTINCT / ORDER BY / LIMIT over all small multisets
+		orders := [][]Order{nil, {{E: Col("t.a")}}, {{E: Col("t.a"), Desc: true}}, {{E: Col("t.b")}, {E: Col("t.a"), Desc: true}}, {{E: Col("t.c"), Desc: true}}}
+		limits := []int{-1, 0, 1, 2, 3}
+		for _, rows := range S {
+			ts := g.mk("t", c01Cols, rows)
+			for _, d := range []bool{false, true} {
+				for _, ob := range orders {
+					for _, lim := range limits {
+						for pi, pj := range [][]Proj{projs[0], projs[2]} {
+							if pi == 1 && (len(rows) < 2 || lim == 3) {
+								continue
+							}
+							q := NewQuery()
+							q.From = &From{Table: ts}
+							q.Proj = pj
+							q.Distinct = d
+							q.OrderBy = ob
+							q.Limit = lim
+							queries = append(queries, q)
+						}
+					}
+				}
+			}
+		}
+		// F3: subquery in FROM and WITH, over U and a few multisets
+		inner := func(t *Table) []*Query {
+			var out []*Query
+			for _, p := range []*Expr{nil, preds[0], preds[2]} {
+				for _, d := range []bool{false, true} {
+					for _, lim := range []int{-1, 2} {
+						for _, ob := range [][]Order{nil, {{E: Col("t.a"), Desc: true}}} {
+							q := NewQuery()
+							q.From = &From{Table: t}
+							q.Where = p
+							q.Distinct = d
+							q.Limit = lim
+							q.OrderBy = ob
+							q.Proj = []Proj{{Star: true}}
+							out = append(out, q)
+							q2 := cloneQuery(q)
+							q2.Proj = []Proj{{E: Col("t.a"), Alias: "a"}, {E: Op("+", Col("t.a"), g.num(1)), Alias: "a1"}, {E: Col("t.b"), Alias: "b"}}
+							out = append(out, q2)
+						}
+					}
+				}
+			}
+			return out
+		}
+		tabs := []*Table{tu, g.mk("t", c01Cols, S[len(S)/2]), g.mk("t", c01Cols, S[len(S)-1])}
+		for _, t := range tabs {
+			for _, in := range inner(t) {
+				for _, outerPred := range []*Expr{nil, Op("=", Col("s.a"), g.num(1)), Op("isnull", Col("s.b"))} {
+					for _, lim := range []int{-1, 1} {
+						q := NewQuery()
+						q.From = &From{Sub: in, Alias: "s"}
+						q.Where = outerPred
+						q.Limit = lim
+						q.Proj = []Proj{{Star: true}}
+						queries = append(queries, q)
+						// same through WITH
+						if lim == -1 {
+							w := NewQuery()
+							w.With = []CTE{{Name: "s", Q: in}}
+							w.From = &From{CTE: "s"}
+							w.Where = outerPred
+							w.Proj = []Proj{{E: Col("s.a")}, {E: Col("s.b")}}
+							queries = append(queries, w)
+						}
+					}
+				}
+			}
+		}
+	}
+	return queries, len(dom), len(S)
+}
+
 func init() {
 	register("C01", "exploration", func(r *findings.Run) {
 		defer cleanupTables()
 		pool := runner.NewPool(0, strings.Fields(os.Getenv("VERIF_WORKER_ENV"))...)
 		defer pool.Close()
 		depth := r.Pick(2, 3)
-		dom := c01Domain()
-		U := append(append([][]V{}, dom...), dom[13], dom[13], dom[47])
-		// sub-domain for table family S (multisets)
-		sub := [][]V{
-			{Int(1), Str("a"), Bool(true)},
-			{Int(1), Str("B"), Bool(false)},
-			{Int(2), Str("a"), Null},
-			{Null, Str("ab"), Bool(true)},
-			{Int(0), Null, Bool(false)},
-			{Int(2), Str("a"), Bool(true)},
-		}
-		var S [][][]V
-		enum.Multisets(len(sub), r.Pick(3, 4), func(ms []int) {
-			var t [][]V
-			for _, i := range ms {
-				t = append(t, sub[i])
-			}
-			S = append(S, t)
-		})
-		gens := []c01Gen{{mkCSV, intLit}, {mkJSON, floatLit}}
-		var queries []*Query
-		for _, g := range gens {
-			tu := g.mk("t", c01Cols, U)
-			preds := c01Predicates(g.num, depth)
-			projs := c01Projections(g.num)
-			// F1: every predicate x two projections over U (filter / map over every row of the domain)
-			for _, p := range preds {
-				for _, pj := range [][]Proj{projs[0], projs[3]} {
-					q := NewQuery()
-					q.From = &From{Table: tu}
-					q.Where = p
-					q.Proj = pj
-					queries = append(queries, q)
-				}
-			}
-			// every projection with and without a predicate
-			for _, pj := range projs {
-				for _, p := range []*Expr{nil, preds[1]} {
-					for _, d := range []bool{false, true} {
-						q := NewQuery()
-						q.From = &From{Table: tu}
-						q.Where = p
-						q.Proj = pj
-						q.Distinct = d
-						queries = append(queries, q)
-					}
-				}
-			}
-			// F2: DISTINCT / ORDER BY / LIMIT over all small multisets
-			orders := [][]Order{nil, {{E: Col("t.a")}}, {{E: Col("t.a"), Desc: true}}, {{E: Col("t.b")}, {E: Col("t.a"), Desc: true}}, {{E: Col("t.c"), Desc: true}}}
-			limits := []int{-1, 0, 1, 2, 3}
-			for _, rows := range S {
-				ts := g.mk("t", c01Cols, rows)
-				for _, d := range []bool{false, true} {
-					for _, ob := range orders {
-						for _, lim := range limits {
-							for pi, pj := range [][]Proj{projs[0], projs[2]} {
-								if pi == 1 && (len(rows) < 2 || lim == 3) {
-									continue
-								}
-								q := NewQuery()
-								q.From = &From{Table: ts}
-								q.Proj = pj
-								q.Distinct = d
-								q.OrderBy = ob
-								q.Limit = lim
-								queries = append(queries, q)
-							}
-						}
-					}
-				}
-			}
-			// F3: subquery in FROM and WITH, over U and a few multisets
-			inner := func(t *Table) []*Query {
-				var out []*Query
-				for _, p := range []*Expr{nil, preds[0], preds[2]} {
-					for _, d := range []bool{false, true} {
-						for _, lim := range []int{-1, 2} {
-							for _, ob := range [][]Order{nil, {{E: Col("t.a"), Desc: true}}} {
-								q := NewQuery()
-								q.From = &From{Table: t}
-								q.Where = p
-								q.Distinct = d
-								q.Limit = lim
-								q.OrderBy = ob
-								q.Proj = []Proj{{Star: true}}
-								out = append(out, q)
-								q2 := cloneQuery(q)
-								q2.Proj = []Proj{{E: Col("t.a"), Alias: "a"}, {E: Op("+", Col("t.a"), g.num(1)), Alias: "a1"}, {E: Col("t.b"), Alias: "b"}}
-								out = append(out, q2)
-							}
-						}
-					}
-				}
-				return out
-			}
-			tabs := []*Table{tu, g.mk("t", c01Cols, S[len(S)/2]), g.mk("t", c01Cols, S[len(S)-1])}
-			for _, t := range tabs {
-				for _, in := range inner(t) {
-					for _, outerPred := range []*Expr{nil, Op("=", Col("s.a"), g.num(1)), Op("isnull", Col("s.b"))} {
-						for _, lim := range []int{-1, 1} {
-							q := NewQuery()
-							q.From = &From{Sub: in, Alias: "s"}
-							q.Where = outerPred
-							q.Limit = lim
-							q.Proj = []Proj{{Star: true}}
-							queries = append(queries, q)
-							// same through WITH
-							if lim == -1 {
-								w := NewQuery()
-								w.With = []CTE{{Name: "s", Q: in}}
-								w.From = &From{CTE: "s"}
-								w.Where = outerPred
-								w.Proj = []Proj{{E: Col("s.a")}, {E: Col("s.b")}}
-								queries = append(queries, w)
-							}
-						}
-					}
-				}
-			}
-		}
-		r.Bound = map[string]interface{}{"predicate_depth": depth, "domain_rows": len(dom), "multiset_tables": len(S), "queries": len(queries)}
+		queries, nDom, nS := c01Queries(depth, r.Pick(3, 4))
+		r.Bound = map[string]interface{}{"predicate_depth": depth, "domain_rows": nDom, "multiset_tables": nS, "queries": len(queries)}
 		r.Rule = "grammar-enumerated single-source queries (WHERE trees over 10 atoms, 7 projections, DISTINCT, 5 ORDER BY forms, LIMIT 0..3, FROM-subquery and WITH nestings) x tables (one table holding every row of the 48-row domain a x b x c plus duplicates; every multiset of <=3 (4) rows of a 6-row sub-domain), as CSV (Int columns) and JSON lines (Float columns), run through the real root command in-process (-o json) and compared with the reference evaluator; non-trivial = query whose reference result is non-empty and differs from the unfiltered input"
 		r.Assume("tie order under ORDER BY is unspecified; a tie group split by LIMIT may contribute any of its members", "LIMIT without ORDER BY may return any min(n,N) rows",
 			"queries octosql rejects at typecheck are counted, not judged", "CSV cannot distinguish NULL from the empty string: CSV tables hold no empty strings")
